@@ -60,6 +60,15 @@ def gen(tier, seed, shard, nshards):
                 if sidx % nshards == shard:
                     yield "shape-dag", {"p": pp, "shape": name, "rep": rep}
                 sidx += 1
+    # small DAGs placed on the nodes 58..69 of a 70-node graph (the other nodes isolated): node indices beyond 63 are where
+    # 64-bit set encodings (1 << node) run out
+    wk = 0
+    for code in G.all_dag_codes(4):
+        small = G.dag_from_code3(4, code)
+        if G.n_edges(small) >= 3:
+            if wk % (3 if tier == "quick" else 1) == 0 and (wk // 3) % nshards == shard:
+                yield "wide-dag", {"p": 4, "code3": code, "P": 70}
+            wk += 1
     for k in range(N[tier]["weighted"]):
         if k % nshards == shard:
             rng = util.rng_for("C08", seed, "w", k)
@@ -174,6 +183,17 @@ def judge(family, case, rec):
         out = gmat.relabel(out0, util.rng_for("shape", case["p"], case["shape"], case["rep"])) if case["rep"] else list(out0)
         rec.count("shapes:" + case["shape"])
         case = dict(case, masks=out)
+        family = "sampled-dag"
+    if family == "wide-dag":
+        small = G.dag_from_code3(case["p"], case["code3"])
+        rngw = util.rng_for("C08wide", case["code3"])
+        labels = [int(v) for v in rngw.choice(np.arange(58, 70), case["p"], replace=False)]
+        big = [0] * case["P"]
+        for i in range(case["p"]):
+            for j in G.bits(small[i]):
+                big[labels[i]] |= 1 << labels[j]
+        rec.count("wide:graphs-with-labels>=64" if max(labels) >= 64 else "wide:graphs")
+        case = dict(case, masks=big)
         family = "sampled-dag"
     if family == "embedded-dag":
         small = G.dag_from_code3(case["p"], case["code3"])
